@@ -5,7 +5,7 @@ from __future__ import annotations
 
 import base64
 import enum
-from typing import ClassVar, Final
+from typing import ClassVar, Final, cast
 
 from .consts import Limits
 
@@ -623,3 +623,75 @@ def search(lo: int, hi: int) -> int:
         else:
             hi = mid
     return -lo
+
+
+# ---- optional objects, lists of objects, typing.cast, hoisted conditional arguments, custom exceptions -------------
+
+class SkippedTimeError(Exception):
+    pass
+
+
+class Node:
+    def __init__(self, key: int, nxt: int) -> None:
+        self.__key = key
+        self.__nxt = nxt
+
+    @property
+    def key(self) -> int:
+        return self.__key
+
+    @property
+    def nxt(self) -> int:
+        return self.__nxt
+
+
+def find_node(nodes: list[Node], k: int) -> Node | None:
+    lower = 0
+    upper = len(nodes)
+    while lower < upper:
+        current = (lower + upper) // 2
+        candidate = nodes[current]
+        if candidate.key > k:
+            upper = current
+        elif candidate.key < k:
+            lower = current + 1
+        else:
+            return candidate
+    return None
+
+
+def walrus_optional(nodes: list[Node], k: int) -> int:
+    if (hit := find_node(nodes, k)):
+        return hit.nxt
+    if (other := find_node(nodes, -k)):
+        return -other.nxt + cast(int, k)
+    if k == 99:
+        raise SkippedTimeError("gap")
+    return nodes[k].nxt
+
+
+def hoisted_argument(a: int, b: int) -> int:
+    return _mk(a if a > 0 else _ovf(b), 3, _ckv(b, -40, 31) if b > 0 else 5)
+
+
+def _mk2(tag: object, a: int, b: int) -> int:
+    return a * 2 + b
+
+
+class Chain:
+    def __init__(self, fallback: Scaler | None, base: int) -> None:
+        self.__fallback = fallback
+        self.__base = base
+
+    def pick(self, x: int) -> int:
+        if self.__fallback is not None and x > 5:
+            return self.__fallback.scale(x) + _mk2(self, x, self.__base)
+        return _mk2(self, self.__base, x)
+
+
+# ---- the arguments of a raised exception are evaluated first (a failing one wins) ---------------------------------
+
+def raise_evaluates_arguments(a: int, b: int) -> int:
+    if a > 5:
+        raise ValueError(_ovf(a * 100), f"{a // b} of {a}")
+    return a
